@@ -213,6 +213,30 @@ def eval_shards(cases, imports, prelude, typ, fn, tag, outdir, shard=150, timeou
 
 # --------------------------------------------------------------------------
 
+def methods_crosscheck(refl):
+    """compare the exported method names found by reflection with the entry table of GeneratedIR.v"""
+    p = os.path.join(COQ, "GeneratedIR.v")
+    if not os.path.exists(p):
+        return "GeneratedIR.v missing"
+    txt = open(p).read()
+    ents = re.findall(r'MkEntry \(B "(\w+)"\) (\d+) \d+', txt)
+    tr = {"Stack": set(), "Condition": set(), "Auxiliary": set()}
+    for name, rc in ents:
+        rc = int(rc)
+        if rc in (0, 1):
+            tr["Stack"].add(name)
+        elif rc in (2, 3):
+            tr["Condition"].add(name)
+        elif rc == 4:
+            tr["Auxiliary"].add(name)
+    out = []
+    for k in tr:
+        r = set(refl.get(k) or [])
+        if r != tr[k]:
+            out.append("%s: only-reflection=%s only-translator=%s" % (k, sorted(r - tr[k]), sorted(tr[k] - r)))
+    return "; ".join(out)
+
+
 def load_known():
     p = os.path.join(ROOT, "known_findings.json")
     if not os.path.exists(p):
@@ -353,6 +377,12 @@ def main():
                 log("harness family %s failed:\n%s" % (fam, hout[-1500:]))
                 continue
             summ = json.load(open(os.path.join(outdir, "summary.json")))
+            if fcfg.get("methods_crosscheck"):
+                diff = methods_crosscheck(summ.get("methods") or {})
+                if diff:
+                    broken.append({"component": "method-set-crosscheck", "family": fam,
+                                   "detail": "exported methods seen by reflection and by the translator differ: %s" % diff})
+                    log("method sets differ (reflection vs translator): %s" % diff)
             model_res, spec_res, kf_res = None, {}, {}
             model_err = None
             mfiles = set()
